@@ -543,6 +543,40 @@ def run(shard, ctx):
     if shard["sgio"] or shard["iscsi"]:
         traveling_devices(ctx, cfg, shard, sdm, idm)
 
+    # application subclasses of the device classes with an opener of their own (O_NONBLOCK / O_EXCL for sg nodes, a login with
+    # digests or CHAP) that does not delegate: a request the transport has to refuse is refused before that opener runs
+    class OwnOpenS(sdm.SCSIDevice):
+        ran = []
+
+        def open(self, *a, **kw):
+            type(self).ran.append(a)
+
+    class OwnOpenI(idm.ISCSIDevice):
+        ran = []
+
+        def open(self, *a, **kw):
+            type(self).ran.append(a)
+
+    refuse_s = ["iscsi://192.0.2.1/iqn.2003-01.org.example:t/0", "sda", "", "dev/sg0", "/DEV/sg0", "file:///dev/sg0"] + ([] if shard["sgio"] else [os.path.join(devnode.base(), "sg5"), "/dev/sg0"])
+    refuse_i = ["/dev/sg0", "iscsi:/192.0.2.1/x/0", "ISCSI://192.0.2.1/x/0", "", "http://192.0.2.1/x/0"] + ([] if shard["iscsi"] else ["iscsi://192.0.2.1:3260/iqn.2003-01.org.example:t/0"])
+    for kls, strings, label in ((OwnOpenS, refuse_s, "SCSIDevice"), (OwnOpenI, refuse_i, "ISCSIDevice")):
+        for dstr in strings:
+            del kls.ran[:]
+            ctx.case((cfg, "subclass-own-open", label, dstr), True)
+            ctx.count("subclass_openers_probed")
+            try:
+                kls(dstr)
+                got = "an object"
+            except NotImplementedError:
+                got = None
+            except Exception as e:  # noqa: BLE001
+                got = "%s: %s" % (type(e).__name__, e)
+            wit = {"configuration": cfg, "class": "subclass of %s with its own open()" % label, "device_string": dstr}
+            if got is not None:
+                ctx.fail("C19:%s.not_refused.subclass_with_own_open.%s" % (cfg, label), "a subclass of %s with its own open(), asked for %r, gave %s instead of NotImplementedError" % (label, dstr, got), wit)
+            elif kls.ran:
+                ctx.fail("C19:%s.opened_before_refusing.subclass_with_own_open.%s" % (cfg, label), "the subclass's opener ran for %r before the refusal" % dstr, wit)
+
     # 4./5. device strings
     from pyscsi.utils import init_device
 
